@@ -12,8 +12,17 @@
     c05_full_inserts_uniform    a cache that only ever receives FULL bindings is prefix-uniform
   together with C20's `c20_retrieve_uniform_partial` (exact on every prefix-uniform trie) and the
   counter-witness `c20_wildcard_witness` (not exact otherwise — the root of C05-F1).
-  That the EVALUATOR's use of the index (check → retrieve → yield_final_output_from_cache,
-  update_cache) is transparent is NOT proved.  The cache-aware evaluator exists as an executable
+    c05_single_variable_conj    THE EVALUATOR, result cache enabled (L2 machine, `Machine.lean`): for a
+                                conjunctive query over one variable, each of any number of consecutive
+                                evaluations of the query object returns exactly the L1 rows, in order -
+                                computed and stored on the first pass, served from the operator caches
+                                afterwards; hence the same rows as with the cache disabled
+                                (c05_single_variable_conj_on_off).  Induction over the tree with a
+                                specification for every operator cache (`Lemmas/MachineOne.lean`:
+                                TSpec/NB, cmp_top, cmp_bound, andStep_one, bound_ok, top_ok).
+  For other shapes (several variables, disjunctions) that the EVALUATOR's use of the index (check →
+  retrieve → yield_final_output_from_cache, update_cache) is transparent is NOT proved - for several
+  variables it is false (C05-F1).  The cache-aware evaluator exists as an executable
   model (layer L2, `Machine.lean`: the caching branches of Comparator / AND / ElseIf with their
   duplicate-tracking sets) and is run next to the implementation for three consecutive evaluations
   with caching on and off; the only theorem about it so far is for caching OFF
@@ -25,6 +34,8 @@
   scope.
 -/
 import EqlModel.Props.C20
+import EqlModel.Lemmas.MachineOne
+import EqlModel.NatWorld
 
 namespace Eql.Cache
 variable {A O : Type} [DecidableEq A]
@@ -135,3 +146,34 @@ theorem c05_single_key_exact (k : Nat) (h : List (Op A O)) (hs : SingleKeyOps k 
   exact c20_retrieve_uniform_partial [k] (by simp) h a (by simp [Uniform, kindAny, hu.2.1, hu.2.2])
 
 end Eql.Cache
+
+namespace Eql
+open Machine
+variable {V : Type} [BEq V] [Inhabited V]
+
+/-- **C05 at the evaluator, single-variable conjunctive queries.**  With the result cache ENABLED, the
+    `n`-th consecutive evaluation of the query object (n = 0, 1, 2, …) by the stateful evaluator returns
+    exactly the rows of the L1 evaluation, in order. -/
+theorem c05_single_variable_conj (W : World V) (D : VarId → List V) (P : Params V) (x : VarId)
+    (hk : KeyOk P x D) (q : Query V) (c : Cond V) (hq : q.cond = some c) (hc : Machine.Cond.conj c = true)
+    (hs : Cond.single x c) (hf : c.noFlat = true) (n : Nat) :
+    (rowsM W D P true q (afterEvalsOn P W D q n [])).1 = rows W D q :=
+  rowsM_on_single_iter P x W D hk q c hq hc hs hf n [] (cinvT_nil P x W D c [])
+
+/-- … hence caching on and caching off agree, whatever was evaluated before in either configuration. -/
+theorem c05_single_variable_conj_on_off (W : World V) (D : VarId → List V) (P : Params V) (x : VarId)
+    (hk : KeyOk P x D) (q : Query V) (c : Cond V) (hq : q.cond = some c) (hc : Machine.Cond.conj c = true)
+    (hs : Cond.single x c) (hf : c.noFlat = true) (n : Nat) (stOff : St) :
+    (rowsM W D P true q (afterEvalsOn P W D q n [])).1 = (rowsM W D P false q stOff).1 := by
+  rw [c05_single_variable_conj W D P x hk q c hq hc hs hf n, rowsM_conj_off W D P q c hq hc hf stOff]
+
+/-- Non-vacuity: three evaluations in a row with the cache enabled (the second and third are served from
+    the caches), a non-trivial answer. -/
+example :
+    let D : VarId → List Nat := fun _ => [1, 2, 3, 4]
+    let P : Params Nat := { rank := id, toKey := id, ofKey := id }
+    let q : Query Nat := ⟨[.var 0], some (.and (.cmp .gt (.var 0) (.lit 1)) (.cmp .lt (.var 0) (.lit 4)))⟩
+    (rowsM natWorld D P true q (afterEvalsOn P natWorld D q 2 [])).1 = [[2], [3]] ∧
+    rows natWorld D q = [[2], [3]] := by decide
+
+end Eql
